@@ -28,6 +28,14 @@ Why(ev) ==
      IF ~ev.res.okp THEN <<"of-none">>
      ELSE IF SameIRI(ev.res, OfRule(ev.id, ev.c, ev.explicit)) THEN <<>>
      ELSE IF ev.explicit.k = "none" THEN <<"built-wrong">> ELSE <<"explicit-ignored">>
+  ELSE IF ev.ev = "addto" THEN        \* CollectionPath.AddTo: sets the built IRI only where the property exists and is unset
+     IF ~HasProp(ev.kind, ev.c) THEN (IF ev.status THEN <<"addto-claims-success-without-property">> ELSE <<>>)
+     ELSE IF ev.explicit.k = "none" THEN
+          (IF ev.status THEN <<>> ELSE <<"addto-refused-unset">>)
+          \o (IF ev.res.okp /\ SameIRI(ev.res, Join(ev.id, ev.c)) THEN <<>> ELSE <<"addto-wrong-iri">>)
+          \o (IF ev.after.okp /\ SameIRI(ev.after, Join(ev.id, ev.c)) THEN <<>> ELSE <<"addto-property-not-set">>)
+     ELSE (IF ev.status THEN <<"addto-overwrote-explicit">> ELSE <<>>)
+          \o (IF ev.after.okp /\ SameIRI(ev.after, ev.explicit.iri) THEN <<>> ELSE <<"addto-explicit-changed">>)
   ELSE <<"unknown-event">>
 
 INSTANCE EventJudge
